@@ -652,10 +652,22 @@ def run(ctx: RunCtx) -> None:
             ctx.violation(PROPERTY, "d-exact", f"{path},not-bytes", f"fetch_url returned {type(result).__name__}")
         elif bytes(result) != case.decoded:
             rel = _relation(bytes(result), case.decoded, case.encoded)
-            ctx.violation(PROPERTY, "d-exact", f"{path},{rel}",
-                          f"fetch_url returned {len(result)} bytes that are not the object's {len(case.decoded)} decoded "
-                          f"bytes ({rel}); codec={case.enc_header!r} encoded={case.n}; requests: "
-                          f"{[(c.method, c.rng, c.status) for c in contacts][:20]}; origin actions: {origin.acts[:20]}")
+            range_acts = [a for a in origin.acts if a.startswith("range:")]
+            size_lie = any(a.startswith("head:") and a.endswith("cl-smaller") for a in origin.acts)
+            if range_acts and range_acts[0] == "range:206-lying-total":  # the bytes=0-0 probe announced a wrong total
+                size_lie = True
+                range_acts = range_acts[1:]
+            if (rel == "prefix" and size_lie and range_acts and all(a == "range:206-no-content-range" for a in range_acts)):
+                # the origin lied consistently: HEAD (or the bytes=0-0 probe) announced a shorter object and every range response withheld the
+                # Content-Range that would have revealed the real total.  Nothing the client saw contradicts "the object
+                # is that short", so no client could fail here (a missing Content-Range is tolerated by the library on
+                # purpose: an existing test requires it).  Counted, not flagged.
+                ch.probe("undetectable:size-source-shorter+no-content-range")
+            else:
+                ctx.violation(PROPERTY, "d-exact", f"{path},{rel}",
+                              f"fetch_url returned {len(result)} bytes that are not the object's {len(case.decoded)} decoded "
+                              f"bytes ({rel}); codec={case.enc_header!r} encoded={case.n}; requests: "
+                              f"{[(c.method, c.rng, c.status) for c in contacts][:20]}; origin actions: {origin.acts[:20]}")
         else:
             ch.probe("returned-exact-bytes")
 
